@@ -260,7 +260,7 @@ func c12pkg() *tcpsim.C12Pkg {
 var sims = map[string]sim.SimFunc{
 	"c12r": func(c *sim.Ctx) { tcpsim.RunC12(c, c12pkg()) },
 	"c09": func(c *sim.Ctx) {
-		tcpsim.Run(c, tcpsim.RunCfg{Strong: true, Bidir: true, Gen: tcpsim.GenCfg{MaxConns: 3, AllowNoEnd: true, AllowRST: true}}, mkWith(true, false))
+		tcpsim.Run(c, tcpsim.RunCfg{Strong: true, Bidir: true, Gen: tcpsim.GenCfg{MaxConns: 3, AllowNoEnd: true, AllowRST: true, SynData: true}}, mkWith(true, false))
 	},
 	"c11r": func(c *sim.Ctx) {
 		tcpsim.Run(c, tcpsim.RunCfg{Lifecycle: true, Bidir: true, Gen: tcpsim.GenCfg{MaxConns: 8, AllowNoEnd: true, AllowRST: true, CloseFlush: true, Reopen: true, BackJumps: true, Short: true}}, mkWith(true, true))
